@@ -11,9 +11,12 @@ import sys
 
 
 def main(argv=None):
-    if os.environ.get("PYTHONHASHSEED") != "0" and argv is None:
-        # hash randomisation changes the iteration order of sets inside Hypothesis: pin it
+    if (os.environ.get("PYTHONHASHSEED") != "0" or os.environ.get("OPENBLAS_NUM_THREADS") != "1") and argv is None:
+        # hash randomisation changes the iteration order of sets inside Hypothesis: pin it.
+        # 16 worker processes x 16 spinning BLAS threads each would thrash the machine: one thread per worker.
         os.environ["PYTHONHASHSEED"] = "0"
+        for var in ("OPENBLAS_NUM_THREADS", "OMP_NUM_THREADS", "MKL_NUM_THREADS"):
+            os.environ[var] = "1"
         os.execv(sys.executable, [sys.executable, "-m", "vp.run"] + sys.argv[1:])
     ap = argparse.ArgumentParser()
     ap.add_argument("--property", required=True)
